@@ -17,12 +17,13 @@ ASSUMPTIONS = ['for an overflowing << in trunc/keep mode either the saturated or
 MODES = ('expand', 'trunc', 'keep')
 
 
-def judge(acc, f, mode, ovf, d, n, cs, part, by='raw'):
+def judge(acc, f, mode, ovf, d, n, cs, part, by='raw', inplace=False):
     """cs: list (array operand) or int (scalar)"""
     arr = isinstance(cs, list)
     cl = cs if arr else [cs]
-    case = {'part': part, 'fmt': list(f), 'shifting': mode, 'overflow': ovf, 'dir': d, 'n': n, 'codes': cs, 'by': by}
+    case = {'part': part, 'fmt': list(f), 'shifting': mode, 'overflow': ovf, 'dir': d, 'n': n, 'codes': cs, 'by': by, 'inplace': inplace}
     acc.dim('built_by', by, len(cl))
+    acc.dim('form', 'inplace' if inplace else 'binary', len(cl))
     acc.evaluations += len(cl)
     acc.transitions += 1
     acc.dim('mode', mode, len(cl))
@@ -32,7 +33,14 @@ def judge(acc, f, mode, ovf, d, n, cs, part, by='raw'):
     try:
         x = build(f, cl, (len(cl),) if arr else (), by, shifting=mode, overflow=ovf)
         before = obs(x)
-        z = (x << n) if d == '<<' else (x >> n)
+        if inplace:
+            z = x.deepcopy()            # x <<= n / x >>= n on a copy: the name is re-bound to the result
+            if d == '<<':
+                z <<= n
+            else:
+                z >>= n
+        else:
+            z = (x << n) if d == '<<' else (x >> n)
         got = codes(z)
         gf = fmt_of(z)
         fl = flags(z)
@@ -173,6 +181,7 @@ def run_shard(sh):
                         for n in range(0, nw + 4):
                             judge(acc, f, mode, ovf, d, n, cs, 'S')
                             judge(acc, f, mode, ovf, d, n, cs, 'S', 'value')
+                            judge(acc, f, mode, ovf, d, n, cs, 'S', 'raw', True)
                             if ovf == 'saturate' and nw >= 3:
                                 judge_history(acc, f, mode, d, n, 'S')
                             for c in cs:
@@ -205,7 +214,7 @@ def replay(case):
     if case.get('history'):
         judge_history(acc, Fmt(*case['fmt']), case['shifting'], case['dir'], case['n'], case['part'])
         return [v for v in acc.violations if v['case'].get('new') == case['new']]
-    judge(acc, Fmt(*case['fmt']), case['shifting'], case['overflow'], case['dir'], case['n'], case['codes'], case['part'], case.get('by', 'raw'))
+    judge(acc, Fmt(*case['fmt']), case['shifting'], case['overflow'], case['dir'], case['n'], case['codes'], case['part'], case.get('by', 'raw'), case.get('inplace', False))
     return acc.violations
 
 
